@@ -203,8 +203,12 @@ def run_to_autough2(case, R):
         f0 = os.path.join(R.tmp, 'source.dat')
         t2_ref.write(f0, fm, style='e', au=False)
         R.label('source:read-from-a-file:' + ('canonical-order' if fm['sections'] == m['sections'] else 'other-section-order'))
+        # (a Fortran program drops the exponent letter of three-digit exponents: such a file is read with the Fortran
+        # read functions, as the user guide prescribes - the same decision as in C01)
+        import re, fixed_format_file as fff
+        needs_fortran = re.search(r'[0-9.][+-][0-9]{3}', open(f0).read()) is not None
         with R.lib('read-source'):
-            d = t2data.t2data(f0)
+            d = t2data.t2data(f0, read_function=fff.fortran_read_function) if needs_fortran else t2data.t2data(f0)
     else:
         with R.lib('build'):
             d = data.build(m)
